@@ -6,14 +6,15 @@
 (***************************************************************************)
 EXTENDS Paths, Json, IOUtils
 
-CONSTANT MaxDepth
+CONSTANT MaxDepth, Small
 
 \* measured by the harness: the working directory the real calls run in, and import-esm on/off
 Cfg  == JsonDeserialize(IOEnv.VERIF_CFG)
 Cwd  == P(TRUE, Cfg.cwd)
 Esm  == Cfg.esm
 
-DirNames  == { Dot, DotDot, <<"d">>, <<"e">>, <<"x", ".", "y">>, <<"d", ".", "t", "s">> }
+DirNames  == IF Small THEN { Dot, DotDot, <<"d">>, <<"x", ".", "y">> }
+             ELSE { Dot, DotDot, <<"d">>, <<"e">>, <<"x", ".", "y">>, <<"d", ".", "t", "s">> }
 FileNames == { <<"A", ".", "t", "s">>, <<"a", ".", "b", ".", "t", "s">>, <<"t", "s", ".", "t", "s">>,
                <<"x", ".", "t", "s", ".", "t", "s">>, <<"j", ".", "j", "s", ".", "t", "s">> }
 
